@@ -11,6 +11,7 @@ CONSTANTS
   MaxCells = 3
   MaxMerges = 1
   MaxSheets = 2
+  KindSeq <- KindsAll
   Rots <- RotStep3
   Layouts <- LayAll
 CONSTRAINT Emit
